@@ -613,7 +613,9 @@ void rename(const std::string& old_filename, const std::string& new_filename) {
 
 void unlink(const string& filename, bool recursive) {
   if (recursive) {
-    if (isdir(filename)) {
+    // Use lstat here so a symlink to a directory is removed as a link; its
+    // target is not part of this tree
+    if (lisdir(filename)) {
       for (const string& item : list_directory(filename)) {
         unlink(filename + "/" + item, true);
       }
